@@ -44,6 +44,15 @@ Items ==
     [b |-> EncV9Hdr(2, H9) \o EncV9TmplSet(<<T(257, FA)>>, <<>>) \o EncSet(257, Body8),
                                                                               toks |-> <<V(9), Def("v9", "data", T(257, FA)), Data("v9", 257)>>],
     [b |-> EncV9Hdr(1, H9) \o EncSet(256, Body8),                              toks |-> <<V(9), Data("v9", 256)>>],
+    \* (re)definition and data for the same id in one packet: define -> data -> redefine -> data in two calls
+    [b |-> EncV9Hdr(2, H9) \o EncV9TmplSet(<<T(256, FA)>>, <<>>) \o EncSet(256, Body8),
+                                                                              toks |-> <<V(9), Def("v9", "data", T(256, FA)), Data("v9", 256)>>],
+    [b |-> EncV9Hdr(2, H9) \o EncV9TmplSet(<<T(256, FB)>>, <<>>) \o EncSet(256, Body8),
+                                                                              toks |-> <<V(9), Def("v9", "data", T(256, FB)), Data("v9", 256)>>],
+    [b |-> EncIpfixMsg(HX, <<EncIpfixTmplSet(<<T(256, FA)>>, <<>>), EncSet(256, Body8)>>),
+                                                                              toks |-> <<V(10), Def("ipfix", "data", T(256, FA)), Data("ipfix", 256)>>],
+    [b |-> EncIpfixMsg(HX, <<EncIpfixTmplSet(<<T(256, FB)>>, <<>>), EncSet(256, Body8)>>),
+                                                                              toks |-> <<V(10), Def("ipfix", "data", T(256, FB)), Data("ipfix", 256)>>],
     [b |-> EncV9Hdr(2, H9) \o EncSet(300, Body8) \o EncV9TmplSet(<<T(257, FA)>>, <<>>),
                                                                               toks |-> <<V(9), Data("v9", 300), Def("v9", "data", T(257, FA))>>],
     [b |-> SubSeq(EncV9Hdr(1, H9) \o EncV9TmplSet(<<T(257, FA)>>, <<>>), 1, 30), toks |-> <<V(9), Stop(9)>>],     \* template record cut
